@@ -779,3 +779,44 @@ def graph_owners(check: Check, repo: Repo, rule: str = "GRAPH-OWNERS") -> None:
              "self._remove_group(child_group, ...) inside the loop over child_groups" if rec else "no recursive removal of child groups")
     if n < 5:
         raise AnalysisError("GRAPH-OWNERS: deletions from the work queue graph not found")
+
+
+# -- round 4 ------------------------------------------------------------------------------------------------
+
+
+def error_keeps_items(check: Check, repo: Repo, rule: str = "ERROR-KEEPS-ITEMS") -> None:
+    check.rule(
+        rule,
+        "StreamItemQueue._run: when the source of a stream fails, the items it yielded before the failure are still "
+        "delivered, in order, ahead of the failure. The handler for the producer's exception therefore cancels nothing "
+        "that is queued: no `.cancel()` call is reachable from it, directly or through the methods of the class it calls "
+        "(_settle_pending cancels the pending item futures). A cancelled item raises CancelledError - not an Exception - in "
+        "the consumer of the batches, the failure entry is never delivered, the announced stream id is never completed and "
+        "no final payload with hasNext: false follows",
+    )
+    ci = ClassIndex(repo).get("execution.incremental.stream_item_queue", "StreamItemQueue")
+    run = ci.methods().get("_run")
+    if run is None:
+        raise AnalysisError("StreamItemQueue._run not found")
+    handlers = [h for t in walk_body(run) if isinstance(t, ast.Try) for h in t.handlers
+                if any(isinstance(c, ast.Call) and "_ErrorEntry" in unparse(c) for s in h.body for c in ast.walk(s))]
+    if len(handlers) != 1:
+        raise AnalysisError("StreamItemQueue._run: handler that delivers the failure entry not found")
+    h = handlers[0]
+    bodies: list[tuple[str, list[ast.stmt]]] = [("_run handler", h.body)]
+    seen = set()
+    cancels = []
+    while bodies:
+        where, stmts = bodies.pop()
+        for s in stmts:
+            for c in ast.walk(s):
+                if not isinstance(c, ast.Call) or not isinstance(c.func, ast.Attribute):
+                    continue
+                if c.func.attr == "cancel":
+                    cancels.append((where, c))
+                elif unparse(c.func.value) == "self" and c.func.attr in ci.methods() and c.func.attr not in seen:
+                    seen.add(c.func.attr)
+                    bodies.append((f"{where} -> {c.func.attr}", ci.methods()[c.func.attr].body))
+    check.ob(rule, h, "StreamItemQueue._run: the failure handler cancels no queued item", not cancels,
+             f"no .cancel() reachable (followed: {sorted(seen) or 'no helper'})" if not cancels else
+             "; ".join(f"{w}: `{unparse(c)[:50]}` (line {c.lineno})" for w, c in cancels[:2]) + " cancels items that must still be delivered before the failure")
